@@ -269,6 +269,8 @@ def base_specs(ctx) -> dict:
                       applied_filters=[dict(name="path_length", kwargs=dict(min_length=3))]),
         "perc3m": dict(name="p", grid_n=3, n_mazes=3, maze_ctor="gen_dfs_percolation", maze_ctor_kwargs=dict(p=0.3),
                        applied_filters=[dict(name="collect_generation_meta")]),
+        "cut3": dict(name="c", grid_n=3, n_mazes=6, seed=3, maze_ctor_kwargs=dict(do_forks=False),
+                     applied_filters=[dict(name="cut_percentile_shortest", kwargs=dict(percentile=30.0))]),
         "big2": dict(name="big", grid_n=2, n_mazes=120),
         "bigf3": dict(name="bigf", grid_n=3, n_mazes=130, applied_filters=[dict(name="path_length", kwargs=dict(min_length=2))]),
     }
@@ -319,6 +321,14 @@ def foreign_variants(spec: dict) -> list[tuple[str, dict]]:
         for lab, dx in (("filter_kwargs", 2), ("filter_kwargs-", -1)):     # same filter NAMES, other arguments (stricter / laxer)
             f0 = dict(spec["applied_filters"][0]); f0["kwargs"] = {k: (max(0, x + dx) if isinstance(x, int) else x) for k, x in f0["kwargs"].items()}
             v(lab, applied_filters=[f0] + list(spec["applied_filters"][1:]))
+    # the REQUEST has a key the file's config lacks (a comparison that only walks the stored side misses it)
+    for fld in ("maze_ctor_kwargs", "endpoint_kwargs"):
+        if spec.get(fld):
+            k0 = sorted(spec[fld])[0]
+            v(fld + "-key", **{fld: {k: x for k, x in spec[fld].items() if k != k0}})
+    if spec.get("applied_filters") and spec["applied_filters"][0].get("name") == "cut_percentile_shortest" and spec["applied_filters"][0].get("kwargs"):
+        f0 = dict(spec["applied_filters"][0]); f0["kwargs"] = {}          # the filter's default argument instead of the requested one
+        v("filter_kwargs-key", applied_filters=[f0] + list(spec["applied_filters"][1:]))
     cs = _colliding_seed(spec) if spec.get("n_mazes", 99) <= 5 else None      # (a few seconds of search each: small configs only)
     if cs is not None:
         v("seed_same_fname", seed=cs)      # another seed whose 5-digit hash suffix, hence cache file NAME, is identical: the name proves nothing
@@ -375,7 +385,7 @@ def build_tasks(ctx, pristine: dict[str, bytes], deep: bool) -> list[dict]:
             for half in ((False, True) if (primary or deep) else (k % 2 == 1,)):
                 add(name, [dict(fault=dict(type="absent")), dict(call=dict(cut=[k, half])), call], "cut")
         # --- foreign datasets / other objects under the requested name
-        if name in ("dfs3", "wil4f", "big2") or deep:
+        if name in ("dfs3", "wil4f", "big2", "perc3m", "cut3") or deep:
             for label, f in foreign_variants(SPECS[name]):
                 add(name, [dict(fault=f), call], "foreign:" + label)
         elif name == "bigf3":    # a minimal-format file (>= 100 mazes after filtering) of a config that differs only in a filter argument / the seed
